@@ -35,6 +35,16 @@ def stepLine (s : St) (line : String) : St × String :=
     match v.toNat? with
     | some v => let r := step s (.finish v); (r.1, obs r.1 r.2)
     | none => (s, "bad-op")
+  | ["finishk", c, v] =>
+    match c.toNat?, v.toNat? with
+    | some c, some v => let r := step s (.finishK c v); (r.1, obs r.1 r.2)
+    | _, _ => (s, "bad-op")
+  | ["take"] =>
+    -- the value handed to the caller is printed by the driver from the state before the step
+    let took := if s.refs ≠ 0 ∧ s.finished then (match s.result with | some r => s!"took {r}" | none => "took -") else "took -"
+    let r := step s .take
+    -- `take` emits no event of its own: replace the "-" of the empty event list by what was handed out
+    (r.1, took ++ ((obs r.1 r.2).drop 1).toString)
   | ["destroy", c] =>
     match c.toNat? with
     | some c => let r := step s (.destroyCtx c); (r.1, obs r.1 r.2)
